@@ -911,6 +911,50 @@ func (it *Interp) setupIntrinsics() {
 		}
 		return strconv.FormatFloat(x.F, f, prec, bits)
 	}
+	appendCells := func(it *Interp, dst Value, cells []Cell) Value {
+		vals := make([]Value, len(cells))
+		for i, c := range cells {
+			vals[i] = it.cellToValue(c)
+		}
+		return it.appendValues(dst.(SliceV), types.Typ[types.Byte], vals)
+	}
+	strCells := func(it *Interp, s string) []Cell {
+		c := make([]Cell, len(s))
+		for i := 0; i < len(s); i++ {
+			c[i] = Cell{B: it.byteTerm(s[i])}
+		}
+		return c
+	}
+	// numeric tokens: a symbolic number formatted in base 10 becomes one opaque cell dec(x) / flt(x); the
+	// stdlib round-trip contract (Parse(Format(x)) = x) is what the readers rely on.
+	T["strconv.AppendInt"] = func(it *Interp, fn *ssa.Function, a []Value) Value {
+		x := a[1].(*Term)
+		base := cint(it, a[2])
+		if x.IsConst() {
+			return appendCells(it, a[0], strCells(it, strconv.FormatInt(x.SInt64(), base)))
+		}
+		if base != 10 {
+			it.outside("AppendInt of a symbolic value in base %d", base)
+		}
+		return appendCells(it, a[0], []Cell{{Tok: "dec", T: x}})
+	}
+	T["strconv.AppendFloat"] = func(it *Interp, fn *ssa.Function, a []Value) Value {
+		x := a[1].(*Term)
+		f := byte(cint(it, a[2]))
+		prec := cint(it, a[3])
+		bits := cint(it, a[4])
+		if x.IsConst() {
+			return appendCells(it, a[0], strCells(it, strconv.FormatFloat(x.F, f, prec, bits)))
+		}
+		if prec != -1 {
+			it.outside("AppendFloat of a symbolic value with fixed precision %d is lossy", prec)
+		}
+		tok := "flt"
+		if bits == 32 {
+			tok = "flt32"
+		}
+		return appendCells(it, a[0], []Cell{{Tok: tok, T: x}})
+	}
 	T["strconv.Atoi"] = func(it *Interp, fn *ssa.Function, a []Value) Value {
 		if s, ok := a[0].(*SymStr); ok {
 			if len(s.C) == 1 && s.C[0].Tok == "dec" {
@@ -1429,18 +1473,20 @@ func (it *Interp) cellIs(c Cell, b byte) bool {
 }
 
 func (it *Interp) symSplit(s *SymStr, sep string) []Value {
-	if len(sep) != 1 {
-		it.outside("Split of a symbolic string on a multi-byte separator")
+	if len(sep) == 0 {
+		it.outside("Split of a symbolic string on an empty separator")
 	}
 	var out []Value
 	var cur []Cell
-	for _, c := range s.C {
-		if it.cellIs(c, sep[0]) {
+	for i := 0; i < len(s.C); {
+		if it.symMatchAt(s, i, sep) {
 			out = append(out, it.normStr(&SymStr{C: cur}))
 			cur = nil
-		} else {
-			cur = append(cur, c)
+			i += len(sep)
+			continue
 		}
+		cur = append(cur, s.C[i])
+		i++
 	}
 	out = append(out, it.normStr(&SymStr{C: cur}))
 	return out
